@@ -1577,3 +1577,190 @@ def c15_r17(ctx):
         ctx.check(good, key(af, f"first of its module={first}"), f"[type that is {'the first' if first else 'a further one'} of its module] every moved type must be listed under `if TYPE_CHECKING:` in a `from <its module> import` "
                   f"(created once per module), the block inserted after the kept imports and `from typing import TYPE_CHECKING` in front of it: {[[norm(strip_pre(e))[:100] for e in o.effects] for o in outs][:1]}", af.loc(),
                   okmsg=f"_add_forward_ref_imports: {'new' if first else 'existing'} module entry, alias added, block + typing import inserted")
+
+
+def _import_recorders(repo) -> Set[str]:
+    """methods of the argument generator that (through calls on self) record an import"""
+    ag = repo.cls(CA_[:-1])
+    direct: Dict[str, Set[str]] = {}
+    for name, fi in ag.methods.items():
+        direct[name] = {c.func.attr for c in ast.walk(fi.node) if isinstance(c, ast.Call) and isinstance(c.func, ast.Attribute) and is_name(c.func.value, "self")}
+    rec = {n for n, fi in ag.methods.items() if any(isinstance(c, ast.Call) and norm(c.func) == "self.imports.append" for c in ast.walk(fi.node))}
+    changed = True
+    while changed:
+        changed = False
+        for n, callees in direct.items():
+            if n not in rec and callees & rec:
+                rec.add(n)
+                changed = True
+    return rec
+
+
+@rule("C14.R16", "the builder modules import what they emit: every import the argument generator records - the custom scalar imports added last included - is handed to the module's "
+      "import list afterwards; the typing names and builder base classes the templates use are imported", min_instances=10, also=["C04", "C07"])
+def c14_r16(ctx):
+    repo = ctx.repo
+    recorders = _import_recorders(repo)
+    ctx.check({"generate_arguments", "add_custom_scalar_imports", "_add_import"} <= recorders, "custom_arguments::recorders", f"import-recording methods of ArgumentGenerator: {sorted(recorders)}",
+              repo.cls(CA_[:-1]).loc(), okmsg=f"ArgumentGenerator records imports in {sorted(recorders)}")
+    is_rec = lambda c: isinstance(c.func, ast.Attribute) and c.func.attr in recorders and norm(c.func.value) in ("self.argument_generator", "self.arguments_generator")
+    is_hand = lambda c: isinstance(c.func, ast.Attribute) and c.func.attr == "extend" and c.args and ".imports" in norm(c.args[0])
+    n_sites = 0
+    for cname in (CFG_, CO_):
+        ci = repo.cls(cname[:-1])
+        for mname, fi in ci.methods.items():
+            if not any(isinstance(c, ast.Call) and is_rec(c) for c in ast.walk(fi.node)):
+                continue
+            n_sites += 1
+            outs = [o for o in Interp(fi, lambda e: None, is_effect=lambda c: is_rec(c) or is_hand(c)).run() if o.kind in ("return", "fallthrough")]
+            good = bool(outs)
+            why = ""
+            for o in outs:
+                effs = [strip_pre(e) for e in o.effects]
+                last_rec = max([i for i, e in enumerate(effs) if isinstance(e, ast.Call) and is_rec(e)], default=None)
+                if last_rec is None:
+                    continue
+                owner = norm(effs[last_rec].func.value)
+                handed = [i for i, e in enumerate(effs) if isinstance(e, ast.Call) and is_hand(e) and i > last_rec and norm(e.func.value) == "self._imports" and f"{owner}.imports" in norm(strip_pre(e.args[0]))]
+                in_body = o.value is not None and f"{owner}.imports" in norm(strip_pre(subst(o.value, o.env, deep=True)))
+                if not handed and not in_body:
+                    good = False
+                    why = f"after `{norm(effs[last_rec])[:80]}` nothing hands {owner}.imports to self._imports"
+            ctx.check(good, key(fi, "imports handed over"), f"imports recorded on the argument generator must reach the module's import list after the last recording call: {why}", fi.loc(),
+                      okmsg=f"{fi.qualname}: recorded imports are handed to self._imports afterwards")
+    ctx.check(n_sites >= 4, "custom generators::recording sites", f"methods of the two generators that record argument imports: {n_sites}", repo.cls(CFG_[:-1]).loc(), okmsg=f"{n_sites} methods record argument imports")
+    # the module is the collected imports followed by the classes
+    for cname, must in ((CFG_, ["self._imports", "self._class_defs"]), (CO_, ["self._imports", "self._type_imports", "self._class_def"])):
+        g = repo.func(cname + "generate")
+        outs = [o for o in Interp(g, lambda e: None).run() if o.kind == "return"]
+        texts = [str(norm(strip_pre(subst(o.value, o.env, deep=True)))) for o in outs]
+        ok = bool(texts) and all(t.startswith("generate_module(body=") and all(m in t for m in must) and [t.index(m) for m in must] == sorted(t.index(m) for m in must) for t in texts)
+        ctx.check(ok, key(g, "module body"), f"the module must be {' + '.join(must)} in this order: {texts[:1]}", g.loc(), okmsg=f"{g.qualname}: module = {' + '.join(must)}")
+    # fixed imports of the templates
+    for cname, names in ((CFG_, {"'Optional'", "'Union'", "'Any'", "'Dict'"}), (CO_, {"'Optional'", "'Any'", "'Dict'"})):
+        init = repo.func(cname + "__init__")
+        outs = [o for o in Interp(init, lambda e: None, is_effect=lambda c: norm(c.func) == "self._add_import").run() if o.kind in ("return", "fallthrough")]
+        good = bool(outs)
+        for o in outs:
+            got: Set[str] = set()
+            for e in o.effects:
+                c = strip_pre(subst(strip_pre(e), o.env, deep=True))
+                a = allargs(c)[0] if isinstance(c, ast.Call) and allargs(c) else None
+                a = strip_pre(a) if a is not None else None
+                if isinstance(a, ast.Call) and dotted(a.func) == "generate_import_from" and norm(argv(a, 1, "from_") or ast.Constant(0)) == "'typing'" and isinstance(argv(a, 0, "names"), (ast.List, ast.Tuple)):
+                    got |= {norm(x) for x in argv(a, 0, "names").elts}
+            good = good and names <= got
+        ctx.check(good, key(init, "typing imports"), f"the module template uses {sorted(names)} from typing; all of them must be imported on every path", init.loc(),
+                  okmsg=f"{init.qualname}: typing names {sorted(names)} imported")
+    init = repo.func(CFG_ + "__init__")
+    vals = [st.value for st in ast.walk(init.node) if isinstance(st, (ast.Assign, ast.AnnAssign)) and st.value is not None and norm(st.targets[0] if isinstance(st, ast.Assign) else st.target) == "self._imports"]
+    env_consts = lambda t: t.replace("BASE_OPERATION_FILE_PATH.stem", "'base_operation'").replace("BASE_GRAPHQL_FIELD_CLASS_NAME", "'GraphQLField'")
+    t0 = env_consts(str(norm(strip_pre(vals[0])))) if vals else ""
+    ctx.check(len(vals) == 1 and "'base_operation'" in t0 and "'GraphQLField'" in t0 and "level=1" in t0, key(init, "GraphQLField import"),
+              f"custom_fields.py starts from `from .base_operation import GraphQLField`: {t0[:160]}", init.loc(), okmsg="custom_fields.py imports GraphQLField from .base_operation")
+    # the typing-field classes an annotation names are imported from custom_typing_fields under the same name
+    for mname, ann in (("_generate_fields_method", None), ("_get_field_name", None)):
+        fi = repo.func(CFG_ + mname)
+        outs = [o for o in Interp(fi, lambda e: None, is_effect=lambda c: norm(c.func) == "self._add_import").run() if o.kind == "return"]
+        good = bool(outs)
+        seen = 0
+        for o in outs:
+            rv = str(norm(strip_pre(subst(o.value, o.env, deep=True)))) if o.value is not None else ""
+            if mname == "_get_field_name" and rv.endswith(", True)"):
+                continue  # object / interface members are methods returning builder classes defined in this module
+            seen += 1
+            imps = []
+            for e in o.effects:
+                c = strip_pre(subst(strip_pre(e), o.env, deep=True))
+                a = strip_pre(allargs(c)[0]) if isinstance(c, ast.Call) and allargs(c) else None
+                if isinstance(a, ast.Call) and dotted(a.func) == "generate_import_from" and norm(argv(a, 1, "from_") or ast.Constant(0)) == "'custom_typing_fields'" and norm(kw(a, "level") or ast.Constant(0)) == "1" \
+                        and isinstance(argv(a, 0, "names"), (ast.List, ast.Tuple)):
+                    imps += [str(norm(strip_pre(x))) for x in argv(a, 0, "names").elts]
+            imps = [i[len("generate_name(name="):-len(").id")] if i.startswith("generate_name(name=") and i.endswith(").id") else i for i in imps]
+            good = good and bool(imps) and all(i in rv for i in imps)
+        ctx.check(good and seen >= 1, key(fi, "typing class imported"), f"a name from custom_typing_fields used in an annotation must be imported from there under that very name (level 1): {[o.text()[:140] for o in outs][:2]}",
+                  fi.loc(), okmsg=f"{fi.qualname}: the typing class it names is imported from .custom_typing_fields")
+
+
+@rule("C15.R18", "plugin construction: the manager builds one plugin per configured class, in configuration order, each with the schema and the configuration (an empty one when none is given); "
+      "Plugin keeps both; a plugin that reads them initialises its base with them first", min_instances=6)
+def c15_r18(ctx):
+    repo = ctx.repo
+    init = repo.func("plugins.manager:PluginManager.__init__")
+    ps = real_params(init)
+    ctx.check(ps[:3] == ["schema", "config_dict", "plugins_types"], key(init, "parameters"), f"PluginManager(schema, config_dict, plugins_types): {ps}", init.loc(), okmsg="PluginManager(schema, config_dict, plugins_types)")
+    good = True
+    shown = ""
+    for _ in (0,):
+        parts = []
+        for st in ast.walk(init.node):
+            if isinstance(st, ast.Assign) and any(norm(t) == "self.plugins" for t in st.targets):
+                parts.append(strip_pre(st.value))
+            elif isinstance(st, ast.AnnAssign) and st.value is not None and norm(st.target) == "self.plugins":
+                parts.append(strip_pre(st.value))
+            elif isinstance(st, ast.AugAssign) and norm(st.target) == "self.plugins":
+                parts.append(strip_pre(st.value))
+            elif isinstance(st, ast.Call) and isinstance(st.func, ast.Attribute) and st.func.attr in ("append", "extend", "insert") and norm(st.func.value) == "self.plugins":
+                parts.append(strip_pre(st.args[0]) if st.func.attr == "extend" and st.args else st)
+        for loop in ast.walk(init.node):  # `for cls in ...: self.plugins.append(cls(...))` is the comprehension written as a loop
+            if isinstance(loop, ast.For) and len(loop.body) == 1 and not loop.orelse and isinstance(loop.body[0], ast.Expr) and loop.body[0].value in parts and loop.body[0].value.func.attr == "append" \
+                    and len(loop.body[0].value.args) == 1:
+                call = loop.body[0].value
+                parts[parts.index(call)] = ast.ListComp(elt=call.args[0], generators=[ast.comprehension(target=loop.target, iter=loop.iter, ifs=[], is_async=0)])
+        comps = [comp_struct(p) for p in parts if isinstance(p, (ast.ListComp, ast.GeneratorExp))]
+        lits = [p for p in parts if isinstance(p, (ast.List, ast.Tuple)) and not p.elts]
+        shown = str([(str(c[0]), [(str(a), list(map(str, b))) for a, b in c[1]]) for c in comps])
+        ok = len(comps) == 1 and len(comps) + len(lits) == len(parts)
+        if ok:
+            el, gens = comps[0]
+            ok = len(gens) == 1 and not gens[0][1] and str(gens[0][0]) in ("plugins_types or []", "plugins_types or ()", "plugins_types if plugins_types else []", "plugins_types if plugins_types is not None else []")
+            try:
+                call = ast.parse(str(el).replace("$", "_V"), mode="eval").body
+            except SyntaxError:
+                call = None
+            ok = ok and isinstance(call, ast.Call) and norm(call.func) == "_V0" and not any(isinstance(a, ast.Starred) for a in call.args)
+            if ok:
+                a_schema = argv(call, 0, "schema")
+                a_conf = argv(call, 1, "config_dict")
+                ok = a_schema is not None and norm(a_schema) == "schema" and a_conf is not None and str(norm(a_conf)) in ("config_dict or {}", "config_dict if config_dict else {}", "config_dict if config_dict is not None else {}", "config_dict or dict()") \
+                    and len(call.args) + len(call.keywords) == 2
+        good = good and ok
+    ctx.check(good, key(init, "one plugin per class"), f"self.plugins must be [cls(schema=schema, config_dict=config_dict or {{}}) for cls in plugins_types or []] - a list, in configuration order, nothing filtered: {shown[:200]}",
+              init.loc(), okmsg="self.plugins = one instance per configured class, in order, built from (schema, config_dict or {})")
+    base = repo.func("plugins.base:Plugin.__init__")
+    stores = {norm(st.targets[0]): norm(st.value) for st in ast.walk(base.node) if isinstance(st, ast.Assign) and len(st.targets) == 1}
+    stores.update({norm(st.target): norm(st.value) for st in ast.walk(base.node) if isinstance(st, ast.AnnAssign) and st.value is not None})
+    ctx.check(real_params(base)[:2] == ["schema", "config_dict"] and stores.get("self.schema") == "schema" and stores.get("self.config_dict") == "config_dict" and
+              all(st in base.node.body for st in ast.walk(base.node) if isinstance(st, (ast.Assign, ast.AnnAssign))), key(base, "keeps schema and config"),
+              f"Plugin.__init__(schema, config_dict) must store both, unconditionally: {stores}", base.loc(), okmsg="Plugin keeps schema and config_dict")
+    n = 0
+    for ci in repo.all_classes():
+        if not ci.module.relpath.startswith("ariadne_codegen/contrib/") or not any(norm(b) in ("Plugin",) for b in ci.node.bases):
+            continue
+        own = ci.methods.get("__init__")
+        if own is None:
+            continue
+        n += 1
+        reads = sorted({norm(a) for fi in ci.methods.values() for a in ast.walk(fi.node) if isinstance(a, ast.Attribute) and norm(a) in ("self.schema", "self.config_dict") and isinstance(a.ctx, ast.Load)})
+        sup = [(i, st) for i, st in enumerate(own.node.body) if isinstance(st, ast.Expr) and isinstance(st.value, ast.Call) and norm(st.value.func) in ("super().__init__", "Plugin.__init__")]
+        p2 = real_params(own)
+        ok = True
+        why = ""
+        if reads or sup:
+            ok = len(sup) == 1
+            if ok:
+                i, st = sup[0]
+                c = st.value
+                off = 1 if norm(c.func) == "Plugin.__init__" else 0
+                a_s, a_c = argv(c, off, "schema"), argv(c, off + 1, "config_dict")
+                ok = a_s is not None and a_c is not None and len(p2) >= 2 and norm(a_s) == p2[0] and norm(a_c) == p2[1]
+                why = f"super().__init__ gets ({norm(a_s) if a_s is not None else None}, {norm(a_c) if a_c is not None else None})"
+                first_read = min([j for j, s2 in enumerate(own.node.body) if any(isinstance(a, ast.Attribute) and norm(a) in ("self.schema", "self.config_dict") and isinstance(a.ctx, ast.Load) for a in ast.walk(s2))], default=None)
+                if ok and first_read is not None and first_read < i:
+                    ok = False
+                    why = "self.schema / self.config_dict read before the base was initialised"
+            else:
+                why = f"{len(sup)} unconditional super().__init__ calls"
+        ctx.check(ok, key(own, "base initialised"), f"{ci.qualname}.__init__ must hand its schema and config_dict to Plugin.__init__ (once, unconditionally, before reading them; reads: {reads}): {why}", own.loc(),
+                  okmsg=f"{ci.qualname}: base initialised with its own (schema, config_dict){' before it reads ' + ', '.join(reads) if reads else ''}")
+    ctx.check(n >= 3, "contrib::plugins with a constructor", f"bundled plugins defining __init__: {n}", "ariadne_codegen/contrib", okmsg=f"{n} bundled plugins define __init__")
